@@ -337,8 +337,10 @@ def monStep (m : MonState) : Item → MonState × Fails
       -- C07: SUBSCRIBE / UNSUBSCRIBE read from the channel obey the same gate as publishes
       let subFails : Fails :=
         if isSub then
-          (if m.expect.isEmpty && m.snapPending == 0 && (decide (m.snapInflight ≥ m.max) || m.snapCollision) then
-            [("loop-gate", s!"request {repr p} taken at {t} with inflight={m.snapInflight} max={m.max} collision={m.snapCollision} (limit in force: configured {m.cfgMax}, negotiated {m.max})")] else []) ++
+          -- … and so do those carried over in `pending`: a SUBSCRIBE / UNSUBSCRIBE never owns a packet id there,
+          -- it is a new request whichever queue it waits in (repair 0971f35; wave-5 change C07-5 / C02-4)
+          (if decide (m.snapInflight ≥ m.max) || m.snapCollision then
+            [("loop-gate", s!"request {repr p} taken at {t} with inflight={m.snapInflight} max={m.max} collision={m.snapCollision} (limit in force: configured {m.cfgMax}, negotiated {m.max}) from={if m.expect.isEmpty && m.snapPending == 0 then "channel" else "pending"}")] else []) ++
           (if m.resumed then
             match m.unacked.find? (fun u => !u.recd && !(m.reSent.contains u.tag)) with
             | some u => [("loop-order", s!"request {repr p} written at {t} before unacknowledged {u.tag} (id {u.pkid}) was retransmitted")]
